@@ -1158,7 +1158,7 @@ SUBS = [
              'columns ij/oj/lj/rj/None/False. Oracle: dictionary model per cell, index as ordered list, column set, container types/keys, identity of '
              'non-timeseries members, inputs unchanged. non-trivial = two timeseries with partially overlapping or disjoint indices, or a cell actually '
              'filled from another stamp',
-        floor=0.3, class_floors={'depth>=2': 0.15, 'empty_intersection': 0.01, 'empty_series': 0.05, 'frames_differing_columns': 0.03,
+        floor=0.3, class_floors={'depth>=2': 0.15, 'empty_intersection': 0.005, 'empty_series': 0.05, 'frames_differing_columns': 0.03,
                                  'as_of_filled_cell': 0.1, 'join=l': 0.04, 'join=r': 0.04, 'join=idx': 0.05, 'join=series': 0.05, 'join=i': 0.04, 'join=o': 0.04,
                                  'same_span_same_length_different_interior': 0.04, 'twins_under_ij_oj': 0.01, 'same_length_different_stamps': 0.04,
                                  'same_endpoints_different_length': 0.03, 'nested_chain': 0.03, 'same_first_two_stamps': 0.03, 'same_last_two_stamps': 0.02,
